@@ -272,7 +272,12 @@ class RefField:
     def from_int(self, n):
         if self.mod is None:
             return n % self.p
-        return tuple((pfromint(n % self.order if n >= 0 else n % self.order, self.p) + [0] * self.d)[:self.d])
+        if n < 0:
+            n %= self.order
+        digits = pfromint(n, self.p)                 # an integer denotes the polynomial of its base-p digits
+        if len(digits) > self.d:
+            digits = pdivmod(digits, self.mod, self.p)[1]
+        return tuple((digits + [0] * self.d)[:self.d])
 
     def to_int(self, a):
         if self.mod is None:
